@@ -222,6 +222,9 @@ class Histories(Part):
             old_store.sync_all()
             old_store.destroy()
             store = SqliteDataStore(problem, database_name=db, mode="rewrite")
+        elif rng.random() < 0.3:
+            # the single-connection mode (thread_safe=False): the same round-trip contract; the view is opened after the store was destroyed
+            store = SqliteDataStore(problem, database_name=db, thread_safe=False)
         else:
             store = SqliteDataStore(problem, database_name=db)
         problem.data_store = store
